@@ -78,3 +78,6 @@ Definition C01_check (c : kv_case) : bool := steps_eqb proj_success (run kv_init
 
 (* C05: the full error values *)
 Definition C05_check (c : kv_case) : bool := steps_eqb (fun o => o) (run kv_init (fst c)) (snd c).
+
+(* io/fs.ValidPath vs the model's valid_path *)
+Definition validpath_check (c : str * bool) : bool := Bool.eqb (valid_path (fst c)) (snd c).
